@@ -520,7 +520,15 @@ class _LocalUnboundNameFinder(_UnboundNameFinder):
             names = self.pyobject.get_scope().get_propagated_names()
         else:
             names = self.pyobject.get_scope().get_names()
-        return name in names or self.parent.is_bound(name, propagated=True)
+        if name in names and not self._is_declared_global(name, names[name]):
+            return True
+        return self.parent.is_bound(name, propagated=True)
+
+    def _is_declared_global(self, name, pyname):
+        # ``global name`` makes the module's binding a name of this scope;
+        # using it is using the module-level name
+        module_names = self.pyobject.get_module().get_scope().get_names()
+        return module_names.get(name) is pyname
 
     def add_unbound(self, name):
         self.parent.add_unbound(name)
